@@ -80,6 +80,11 @@ def run(ck, tier, seed):
         ck.cov["evaluations"] += 1
         vmo = o.get("vm1")
         m = None
+        if p.get("funcs"):
+            # a module that declares functions is served by the interpreter in both modes (routes.go): the bytecode of
+            # its routes is never run; the HTTP comparison below covers what a client can see
+            vmo = None
+            ck.cov["served_by_interpreter_fallback"] = ck.cov.get("served_by_interpreter_fallback", 0) + 1
         if vmo and vmo.get("kind") == "compile-error":
             if "redeclare" in vmo.get("msg", "") and langrun.static_redeclare(p):
                 continue      # rejected by both modes' front end: outside the domain
@@ -88,7 +93,7 @@ def run(ck, tier, seed):
             if c["out"]["kind"] != "error":
                 ck.mismatch("vm/compile-error/" + vmo.get("msg", "")[:40], {"src": c["src"], "what": vmo.get("msg")}, replay={"kind": "lang", "prog": p})
                 continue
-        else:
+        elif vmo is not None:
             n += 1
             m = langrun.compare(c["out"], vmo)
         if m:
